@@ -29,6 +29,7 @@ mod c08;
 mod c05b;
 mod c05c;
 mod c05d;
+mod c04;
 mod c05;
 mod c09;
 mod c10;
@@ -89,6 +90,7 @@ fn main() {
     all.extend(c05b::witnesses());
     all.extend(c05c::witnesses());
     all.extend(c05d::witnesses());
+    all.extend(c04::witnesses());
     all.extend(c05::witnesses());
     all.extend(c09::witnesses());
     all.extend(c10::witnesses());
